@@ -632,5 +632,10 @@ mut("02-pointer-allocated-before-presence-test", "C02", "decoder:absent-field-un
 mut("09-rotation-arm-leaves-when-salt-known", "C09", "notify:every-path", ("mtproto.go", "	case *objects.BadServerSalt:\n		m.serverSalt = message.NewSalt\n", "	case *objects.BadServerSalt:\n		if message.NewSalt == m.serverSalt {\n			break\n		}\n		m.serverSalt = message.NewSalt\n"))
 mut("09N-rotation-arm-saves-only-when-new", "C09", None, ("mtproto.go", "		m.serverSalt = message.NewSalt\n		err := m.SaveSession()\n		check(err)\n\n		// the server rejected exactly one message", "		if message.NewSalt != m.serverSalt {\n			m.serverSalt = message.NewSalt\n			err := m.SaveSession()\n			check(err)\n		}\n\n		// the server rejected exactly one message"))
 
+mut("12-newclient-splits-the-session-path", "C12", "bare-name:", ("telegram/common.go", "	if !dry.PathIsWritable(c.SessionFile) {\n", "	if d, _ := filepath.Split(c.SessionFile); d != \"\" && !dry.FileIsDir(d) {\n		return nil, errs.NotFound(\"directory\", d)\n	}\n	if !dry.PathIsWritable(c.SessionFile) {\n"), ("telegram/common.go", "import (\n	\"net\"\n", "import (\n	\"net\"\n	\"path/filepath\"\n"))
+mut("14-zero-literal-for-enum-results", "C14", "result-representation:knows-list-ness", ("internal/cmd/tlgen/gen/tl_gen_methods.go", "	responses := []jen.Code{resp, jen.Error()}\n", "	responses := []jen.Code{resp, jen.Error()}\n	if _, isEnum := g.schema.Enums[obj.Response.Type]; isEnum {\n		responses = []jen.Code{resp, jen.Error()}\n	}\n"))
+mut("18-no-password-answer-for-short-b", "C18", "no-password:only-for-the-empty-password", ("telegram/internal/srp/2fa.go", "	if password == \"\" {\n		return nil, nil\n	}\n", "	if password == \"\" || len(srpB) < 8 {\n		return nil, nil\n	}\n"))
+mut("19-reader-replaced-at-construction", "C19", "source-replaced", ("internal/utils/utils.go", "func GenerateSessionID() int64 {\n", "func GenerateSessionID() int64 {\n	crand.Reader = bufio.NewReader(crand.Reader)\n"), ("internal/utils/utils.go", "import (\n", "import (\n	\"bufio\"\n	crand \"crypto/rand\"\n"))
+
 json.dump(M, open('/verif/selftest/mutations.json', 'w'), indent=1, ensure_ascii=False)
 print(len(M), "mutations")
